@@ -593,6 +593,10 @@ def make_reward_fn(spec, domain):
             return sgn * sum(((float(x) - lo) / (hi - lo) if hi > lo else 0.0) for x, (lo, hi) in zip(p, domain)) / len(domain)
         if kind == "bernoulli":
             return 1.0 if r.random() < spec.get("p", 0.5) else 0.0
+        if kind == "decay":
+            return spec.get("sign", 1.0) / i
+        if kind == "ramp":
+            return spec.get("sign", 1.0) * i
         if kind == "score":
             return float(r.choice([0, 1, 5, 17, 100, 122, 200, 255]) if r.random() < 0.5 else r.randint(0, 255))
         raise HarnessError("unknown reward kind " + kind)
